@@ -1,9 +1,9 @@
 (* C19 — editor format edits are well-formed and equal the formatter.
    Only statements, closed by [exact lemma], with Print Assumptions beneath. *)
 From Coq Require Import String List NArith ZArith Bool.
-From J5V.lib Require Import Text Outcome.
+From J5V.lib Require Import Text Outcome GoExpr.
 From J5V.model Require Import BclLexer BclParser BclFmt BclLsp.
-From J5V.proofs Require Import BclPosProofs BclLexerProofs BclParserProofs BclTextProofs BclFmtProofs BclFmtFullProofs BclLspProofs BclLspClampProofs BclDocBytesProofs.
+From J5V.proofs Require Import BclPosProofs BclLexerProofs BclParserProofs BclTextProofs BclFmtProofs BclFmtFullProofs BclLspProofs BclLspClampProofs BclDocBytesProofs BclFmtGenProofs BclFmtGenAllProofs.
 Import ListNotations.
 Local Open Scope Z_scope.
 
@@ -146,6 +146,17 @@ Theorem C19_format_twice_is_stable : forall input out, fmt_bytes input = Ok out 
     strip_trailing_blank (apply_edits (split_on 10 out) 0 es) = strip_trailing_blank (split_on 10 out).
 Proof. exact fmt_diffs_of_output_stable. Qed.
 Print Assumptions C19_format_twice_is_stable.
+
+(* ---- the model is the code (tie) ---------------------------------------------------------------------- *)
+(* FmtDiffs' merge loop and edit loop and lineSet.rangeLines, run on the conditions, FmtDiff literals and
+   assignments the translator reads from fmt.go on every run (gen/BclFmtGen.v, Go expressions as lib/GoExpr terms;
+   diffs_tab / merge_tab follow the statements of the two loops, a Go slice out of range is None), give exactly
+   the model's edit list, for every document and every fragment list *)
+Theorem C19_model_decisions_are_the_code : forall input ds,
+  diffs_tab (split_on 10 input) (merge_tab ds []) 0 (ev [] (assign_of "fmt.go:FmtDiffs" 8))
+  = match fmt_diffs_of input ds with Ok es => Some es | _ => None end.
+Proof. exact fmt_diffs_of_all. Qed.
+Print Assumptions C19_model_decisions_are_the_code.
 
 (* the shape of every edit FmtDiffs returns, for every input (accepted or not): no edit starts beyond
    the last line of the document, and every replacement text is empty or ends with a newline (so
